@@ -505,7 +505,22 @@ fn runtype_any_of_discriminated(
                             .any(|it| it == *current_key)
                     })
                     .map(|vs| {
-                        Runtype::object(vs.iter().map(|it| (it.0.clone(), it.1.clone())).collect())
+                        // the schema lists one branch per key under `oneOf`: a variant that carries
+                        // several literals must be narrowed to this key, or its values match two branches
+                        Runtype::object(
+                            vs.iter()
+                                .map(|it| {
+                                    if *it.0 == discriminator {
+                                        (
+                                            it.0.clone(),
+                                            Runtype::single_string_const(current_key).required(),
+                                        )
+                                    } else {
+                                        (it.0.clone(), it.1.clone())
+                                    }
+                                })
+                                .collect(),
+                        )
                     })
                     .collect::<Vec<_>>();
                 let schema = if cases.len() == 1 {
